@@ -14,6 +14,9 @@ inductive POp where
   | update (id : Nat) (newMd : MetaMap) (flen : Nat)
   | snapshot
   | restart
+  /-- a write whose WAL append failed on a storage fault (after the retries and the rollback):
+      it consumed `n` sequence numbers and, by C03, did nothing else -/
+  | ioFailed (n : Nat)
 
 /-- inputs for which the ANN index does not refuse a vector the validators let through
     (true of every input since fix d09e19e; the correspondence run counts violations: 0) -/
@@ -36,6 +39,7 @@ def pStep (e : PEng) (d : Disk) : POp → PEng × List Action × POut
     match pRestart e.cfg e.nextName d with
     | .ok (e', as) => (e', as, .ok)
     | .error _ => (e, [], .err)
+  | .ioFailed n => ({ e with nextSeq := e.nextSeq + n }, [], .err)
 
 /-- run a history from an empty data directory -/
 def pRun (cfg : PCfg) (ops : List POp) : PEng × Disk :=
